@@ -128,6 +128,27 @@ template <class T> static void extreme_T (uint64_t seed, int n)
         }
         if (dir.x == 0 && dir.y == 0 && dir.z == 0) dir[rng.below (3)] = comps[1 + rng.below (NC - 1)];
         run<T> ("extreme", mnv, mxv, pos, dir);
+        if (it % 8 == 0)
+        {
+            // Directed: every direction component tiny, but of different sizes.  The origin sits on the low face of axis a; the
+            // slab of axis b is reached at a representable parameter (K / tb) at which the line is off the face of axis a by a
+            // clear margin (2^-6 .. 2^-10), on the inside (hit) or on the outside (miss): an axis may not be written off as
+            // parallel because ONE of its plane distances overflows.
+            int a = (int) rng.below (3), b = (a + 1 + (int) rng.below (2)) % 3, c = 3 - a - b;
+            for (int i = 0; i < 3; ++i) { mnv[i] = (T) rng.range (-2, 1); mxv[i] = mnv[i] + (T) rng.range (1, 3); }
+            mxv[b] = mnv[b];                                                     // flat in b: it is crossed at one parameter only
+            pos[a] = mnv[a]; pos[c] = (mnv[c] + mxv[c]) / 2;
+            T K = (T) rng.range (100, 900);
+            bool behind = rng.below (2) != 0;                                    // the crossing lies behind the origin / ahead of it
+            pos[b] = behind ? mnv[b] + K : mnv[b] - K;
+            T da = tiny * (T) 64 * (rng.below (2) ? T (1) : T (-1));              // direction along a: into the box, or out of it
+            T off = (T) std::ldexp (1.0, -(int) rng.range (6, 10));               // |offset| along a at the crossing
+            T tb = std::fabs (da) * K / off;                                     // speed along b, so that |da| * (K / tb) = off
+            dir[a] = da; dir[b] = tb; dir[c] = 0;
+            run<T> ("extreme", mnv, mxv, pos, dir);
+            dir[b] = -tb;
+            run<T> ("extreme", mnv, mxv, pos, dir);
+        }
     }
 }
 
